@@ -81,7 +81,12 @@ type Type struct {
 	Zero bool `json:"zero,omitempty"`
 	// Scalar (with Zero): the type is not a struct at all but a named scalar (`type T int32`);
 	// a pointer to it is as legal a component as a pointer to a struct.
-	Scalar bool      `json:"scalar,omitempty"`
+	Scalar bool `json:"scalar,omitempty"`
+	// Local: the type is declared inside a function under the Go name "Local" (every such type
+	// of the batch has the same package path and the same name, though they are distinct
+	// types); it has no fields of its own and gets its behaviour (role "", "runner" or
+	// "closer", a custom name) from an embedded base struct. Its instances need custom names.
+	Local  bool      `json:"local,omitempty"`
 	Points []*Point  `json:"points,omitempty"`
 	Frame  []*Frame  `json:"frame,omitempty"`
 	Config []*Conf   `json:"config,omitempty"`
